@@ -125,6 +125,7 @@ class Design:
         d.nets = []
         d.explicit = []           # (block name, block name)
         d.used_structs = set()
+        d.funcs = []           # read-only helper functions: {"name", "comp", "e": expr}; called as {"k": "fcall", "f": i}
         d.checkfix = True
         d.bitacyclic = True
         d.novarcycle = False
@@ -188,6 +189,8 @@ class Design:
                 return {"k": "sig", "s": v.sig.idx + 1, "lo": v.lo, "hi": v.hi}
             if k == "lit":
                 return {"k": "lit", "v": e["v"], "w": e["w"]}
+            if k == "fcall":      # a helper function is its body, inlined (footprints included)
+                return ex(d.funcs[e["f"]]["e"])
             if k == "idx":
                 lo, hi = e.get("sl") or (0, e["arr"][0].w)
                 return {"k": "idx", "arr": [x.idx + 1 for x in e["arr"]], "i": ex(e["i"]), "lo": lo, "hi": hi}
@@ -269,6 +272,8 @@ class Design:
             return e["v"].rel(host)
         if k == "lit":
             return "Bits%d(%d)" % (e["w"], e["v"])
+        if k == "fcall":
+            return "%s()" % d.funcs[e["f"]]["name"]
         if k == "idx":
             a0 = e["arr"][0]
             base = ".".join(("s",) + a0.comp[len(host):] + (a0.arr[0],))
@@ -350,10 +355,17 @@ class Design:
             for blk in d.blocks:
                 if blk["comp"] == comp:
                     items.append(("blk", blk))
+            for fn in d.funcs:
+                if fn["comp"] == comp:
+                    items.append(("func", fn))
             if order_rng is not None:
                 order_rng.shuffle(items)
             for it in items:
-                if it[0] == "conn":
+                if it[0] == "func":
+                    body.append("@s.func")
+                    body.append("def %s():" % it[1]["name"])
+                    body.append("  return %s" % d.py_expr(it[1]["e"], comp))
+                elif it[0] == "conn":
                     style = 0 if order_rng is None else order_rng.randrange(3)
                     a, b = it[1], it[2]
                     const = not a.startswith("s.")
